@@ -29,6 +29,7 @@ EXPLANATION = (
     "read from common.py). The result is compared leaf by leaf with afkverif.kafka_schema. Encoder and decoder grammars "
     "of message formats, blobs and primitives are compared with each other (structural content of encode-then-decode = "
     "identity)."
+    ' Also: a message is rejected only for values read from its own bytes, fields are delivered as read (R4); blob decoders accept whatever the encoders write (R3).'
 )
 SHARED = [('C04', ['R3'], 'encoding then decoding is the identity: the encoder writes the message as given (timestamp 0 included)')]
 ASSUMPTIONS = ["Kafka protocol guide layouts as transcribed in afkverif/kafka_schema.py", "gzip round-trips bytes exactly"]
@@ -189,7 +190,7 @@ def run(ctx):
     r.info("relative_unpack sites: %d" % n_sites)
 
     # ---- R3 reader/writer symmetry
-    r = ctx.rule("R3", "encoder and decoder grammars agree: message formats, consumer-protocol blobs, primitives", 8, "F")
+    r = ctx.rule("R3", "encoder and decoder grammars agree: message formats, consumer-protocol blobs, primitives", 9, "F")
     em = ctx.func(KCQ + "._encode_message")
     dm = ctx.func(KCQ + "._decode_message")
     et, _ = W.encoder_terms(prog, em)
@@ -256,6 +257,38 @@ def run(ctx):
             okt = okt and isinstance(first, ast.Call) and call_name(first) == "decode" and len(first.args) == 1 and str(const_value(prog, rf, first.args[0])).lower() == enc_
         r.check(okt, "_util:%s#decodes-on-every-path" % rname, "the text reader returns something other than the %s-decoded bytes on some path" % enc_,
                 where(rf, rf.node), "an empty STRING decodes to b'' instead of '' (a JoinGroup error reply carries empty ids)")
+
+    # a mapping handed to a result struct is keyed by the decoded id of its entries, not by their position on the wire
+    dmr = ctx.func(KCQ + ".decode_metadata_response")
+    okk, whyk = False, "the per-topic partition map is not built by storing each PartitionMetadata under its own partition id"
+    for tm in calls_in(dmr, "TopicMetadata"):
+        if len(tm.args) >= 3:
+            mv = tm.args[2]
+            if isinstance(mv, ast.Name):
+                st_ = [x for x in walk_body_shallow(dmr.body) if isinstance(x, ast.Assign) and isinstance(x.targets[0], ast.Subscript) and norm(x.targets[0].value) == mv.id]
+                cmp_ = [x for x in walk_body_shallow(dmr.body) if isinstance(x, ast.Assign) and norm(x.targets[0]) == mv.id and isinstance(x.value, ast.DictComp)]
+                def _pm_call(x):
+                    # the stored value: the PartitionMetadata(...) call itself or a local holding it
+                    v_ = x.value
+                    if isinstance(v_, ast.Name):
+                        ds_ = [y for y in walk_body_shallow(dmr.body) if isinstance(y, ast.Assign) and norm(y.targets[0]) == v_.id]
+                        v_ = ds_[0].value if len(ds_) == 1 else None
+                    return v_ if isinstance(v_, ast.Call) and call_name(v_) == "PartitionMetadata" and len(v_.args) >= 2 else None
+                if st_ and all(_pm_call(x) is not None and (norm(x.targets[0].slice) == norm(_pm_call(x).args[1]) or (
+                        isinstance(x.value, ast.Name) and norm(x.targets[0].slice) == "%s.partition" % x.value.id)) for x in st_):
+                    okk = True
+                elif cmp_ and all(isinstance(x.value.value, ast.Call) and call_name(x.value.value) == "PartitionMetadata" and len(x.value.value.args) >= 2 and
+                                  norm(x.value.key) == norm(x.value.value.args[1]) for x in cmp_):
+                    okk = True
+            elif isinstance(mv, ast.DictComp) and isinstance(mv.value, ast.Call) and call_name(mv.value) == "PartitionMetadata" and len(mv.value.args) >= 2 and \
+                    norm(mv.key) == norm(mv.value.args[1]):
+                okk = True
+            elif isinstance(mv, ast.DictComp) and isinstance(mv.value, ast.Name) and isinstance(mv.key, ast.Attribute) and norm(mv.key) == "%s.partition" % mv.value.id:
+                okk = True
+            else:
+                whyk = "the per-topic partition map is `%s`: keyed by something else than the partition id of each entry" % norm(mv, 60)
+    r.check(okk, "%s.decode_metadata_response#partition-map-keyed-by-id" % KCQ, whyk, where(dmr, dmr.node),
+            "a metadata reply listing partitions out of order or with gaps (2,0,1 / 3,12): leaders are attributed to the wrong partitions")
 
     # ---- R4 codec table + R6 sibling agreement of the per-magic decoders
     r = ctx.rule("R4", "both per-magic decoders handle none/gzip/snappy with the matching decompressor and raise otherwise; "
